@@ -103,6 +103,9 @@ def cases(tier):
         add("einsum(ijb,ijbg->bg,imag_part=False)", lambda x, y: cplx.make_complex(cplx.einsum("ijb,ijbg->bg", x, y, imag_part=False)),
             [(n, n, m), (n, n, m, 2)], lambda x, y: _re(np.einsum("ijb,ijbg->bg", x, y)))
         add("matmul(shape mismatch)", lambda x, y: cplx.matmul(x, y), [(n, m), (m + 1, n)], exc=(RuntimeError, ValueError))
+        if n != m:
+            # vectors of different lengths have no inner product - a length-1 operand is not a scalar to be broadcast
+            add("inner_prod(vectors of different lengths)", lambda x, y: cplx.inner_prod(x, y), [(n,), (m,)], exc=(RuntimeError, ValueError))
     # the same tensor OBJECT as both operands (squares, norms, x x^T): the result is the product of the operand with itself,
     # whatever shortcut a function takes when it notices that its arguments are identical
     for s in _shapes(dims, min(ranks, 3)):
